@@ -150,11 +150,11 @@ func NewModuleDeclarationNode(
 }
 
 func (*ModuleDeclarationNode) Class() *value.Class {
-	return value.ClassDeclarationNodeClass
+	return value.ModuleDeclarationNodeClass
 }
 
 func (*ModuleDeclarationNode) DirectClass() *value.Class {
-	return value.ClassDeclarationNodeClass
+	return value.ModuleDeclarationNodeClass
 }
 
 func (n *ModuleDeclarationNode) Inspect() string {
